@@ -79,6 +79,20 @@ func (r *rw) stmt(s ast.Stmt) ast.Stmt {
 			r.used = true
 			return &ast.ExprStmt{X: call(sel("simrt", "Recv"), r.site(s.Pos()), u.X)}
 		}
+		// X.Lock() / X.RLock() -> simrt.Lock(X.TryLock, X.Lock) / simrt.RLock(X.TryRLock, X.RLock): under
+		// simulation a goroutine that finds the mutex taken yields to the scheduler instead of blocking
+		// in the runtime (a mutex held across a simulated store or network call would otherwise stop the
+		// bubble from ever becoming quiescent). Every Lock/RLock method in package raft is a sync one.
+		if c, ok := s.X.(*ast.CallExpr); ok && len(c.Args) == 0 {
+			if se, ok := c.Fun.(*ast.SelectorExpr); ok && (se.Sel.Name == "Lock" || se.Sel.Name == "RLock") {
+				try := "TryLock"
+				if se.Sel.Name == "RLock" {
+					try = "TryRLock"
+				}
+				r.used = true
+				return &ast.ExprStmt{X: call(sel("simrt", se.Sel.Name), &ast.SelectorExpr{X: se.X, Sel: ast.NewIdent(try)}, &ast.SelectorExpr{X: se.X, Sel: ast.NewIdent(se.Sel.Name)})}
+			}
+		}
 		// X.Wait() -> followed by yield
 		if c, ok := s.X.(*ast.CallExpr); ok && len(c.Args) == 0 {
 			if se, ok := c.Fun.(*ast.SelectorExpr); ok && se.Sel.Name == "Wait" && !r.done[s] {
